@@ -43,7 +43,7 @@ def _run(events: list) -> bool:
         for a in events:
             ev = ALPHA[concretize(a, NA - 1)]
             if not s.apply(ev):
-                return True  # event not enabled here: pruned
+                return track.pruned()  # event not enabled here
         s.settle()
         if track.reached():
             return False
